@@ -47,6 +47,9 @@ def cases(ctx):
 
 def gen_numbers(rng):
     nums = set()
+    if rng.random() < 0.1:
+        # many members of the 1024-wide private block: hash collisions among listed numbers are likely
+        return sorted(str(n) for n in rng.sample(range(64512, 65536), rng.randint(20, 60)))
     for _ in range(rng.randint(1, 6)):
         r = rng.random()
         if r < 0.4:
